@@ -96,6 +96,6 @@ package serializers
 //@   requires [C03:pre] bom != nil && bom.NodeList != nil && sbom.validNL(bom.NodeList)
 //@   ensures [C03:spdx:relationships:complete] result1 == nil ==> (forall i int, j int :: 0 <= i && i < len(bom.NodeList.Edges) && 0 <= j && j < len(bom.NodeList.Edges[i].To) ==> (exists k int :: 0 <= k && k < len(result0) && result0[k] != nil && result0[k].RefA.ElementRefID == bom.NodeList.Edges[i].From && result0[k].RefA.DocumentRefID == "" && result0[k].RefB.ElementRefID == bom.NodeList.Edges[i].To[j] && result0[k].RefB.DocumentRefID == "" && result0[k].Relationship == sbom.Edge_Type.ToSPDX2(bom.NodeList.Edges[i].Type)))
 //@   ensures [C01:spdx:relationships:complete] result1 == nil ==> (forall i int, j int :: 0 <= i && i < len(bom.NodeList.Edges) && 0 <= j && j < len(bom.NodeList.Edges[i].To) ==> (exists k int :: 0 <= k && k < len(result0) && result0[k] != nil && result0[k].RefA.ElementRefID == bom.NodeList.Edges[i].From && result0[k].RefA.DocumentRefID == "" && result0[k].RefB.ElementRefID == bom.NodeList.Edges[i].To[j] && result0[k].RefB.DocumentRefID == "" && result0[k].Relationship == sbom.Edge_Type.ToSPDX2(bom.NodeList.Edges[i].Type)))
-//@   invariant L0: [C03:inv] !(nil in elems(relationships)) && (forall i int, j int :: 0 <= i && i < _i && 0 <= j && j < len(bom.NodeList.Edges[i].To) ==> (exists k int :: 0 <= k && k < len(relationships) && relationships[k] != nil && relationships[k].RefA.ElementRefID == bom.NodeList.Edges[i].From && relationships[k].RefA.DocumentRefID == "" && relationships[k].RefB.ElementRefID == bom.NodeList.Edges[i].To[j] && relationships[k].RefB.DocumentRefID == "" && relationships[k].Relationship == sbom.Edge_Type.ToSPDX2(bom.NodeList.Edges[i].Type)))
-//@   invariant L1: [C03:inv] !(nil in elems(relationships)) && (forall i int, j int :: 0 <= i && i < _i1 && 0 <= j && j < len(bom.NodeList.Edges[i].To) ==> (exists k int :: 0 <= k && k < len(relationships) && relationships[k] != nil && relationships[k].RefA.ElementRefID == bom.NodeList.Edges[i].From && relationships[k].RefA.DocumentRefID == "" && relationships[k].RefB.ElementRefID == bom.NodeList.Edges[i].To[j] && relationships[k].RefB.DocumentRefID == "" && relationships[k].Relationship == sbom.Edge_Type.ToSPDX2(bom.NodeList.Edges[i].Type)))
-//@   invariant L1: [C03:inv] e != nil && e == bom.NodeList.Edges[_i1] && 0 <= _i1 && _i1 < len(bom.NodeList.Edges) && (forall j int :: 0 <= j && j < _i ==> (exists k int :: 0 <= k && k < len(relationships) && relationships[k] != nil && relationships[k].RefA.ElementRefID == e.From && relationships[k].RefA.DocumentRefID == "" && relationships[k].RefB.ElementRefID == e.To[j] && relationships[k].RefB.DocumentRefID == "" && relationships[k].Relationship == sbom.Edge_Type.ToSPDX2(e.Type)))
+//@   invariant L0: [C03:inv@root] !(nil in elems(relationships)) && (forall i int, j int :: 0 <= i && i < _i && 0 <= j && j < len(bom.NodeList.Edges[i].To) ==> (exists k int :: 0 <= k && k < len(relationships) && relationships[k] != nil && relationships[k].RefA.ElementRefID == bom.NodeList.Edges[i].From && relationships[k].RefA.DocumentRefID == "" && relationships[k].RefB.ElementRefID == bom.NodeList.Edges[i].To[j] && relationships[k].RefB.DocumentRefID == "" && relationships[k].Relationship == sbom.Edge_Type.ToSPDX2(bom.NodeList.Edges[i].Type)))
+//@   invariant L1: [C03:inv@root] !(nil in elems(relationships)) && (forall i int, j int :: 0 <= i && i < _i1 && 0 <= j && j < len(bom.NodeList.Edges[i].To) ==> (exists k int :: 0 <= k && k < len(relationships) && relationships[k] != nil && relationships[k].RefA.ElementRefID == bom.NodeList.Edges[i].From && relationships[k].RefA.DocumentRefID == "" && relationships[k].RefB.ElementRefID == bom.NodeList.Edges[i].To[j] && relationships[k].RefB.DocumentRefID == "" && relationships[k].Relationship == sbom.Edge_Type.ToSPDX2(bom.NodeList.Edges[i].Type)))
+//@   invariant L1: [C03:inv@root] e != nil && e == bom.NodeList.Edges[_i1] && 0 <= _i1 && _i1 < len(bom.NodeList.Edges) && 0 <= _i && _i <= len(relationships) && (forall j int :: 0 <= j && j < _i ==> relationships[len(relationships) - _i + j] != nil && relationships[len(relationships) - _i + j].RefA.ElementRefID == e.From && relationships[len(relationships) - _i + j].RefA.DocumentRefID == "" && relationships[len(relationships) - _i + j].RefB.ElementRefID == e.To[j] && relationships[len(relationships) - _i + j].RefB.DocumentRefID == "" && relationships[len(relationships) - _i + j].Relationship == sbom.Edge_Type.ToSPDX2(e.Type))
